@@ -65,6 +65,7 @@ class FnContract:
         self.ats = []     # (anchor, text)
         self.consts = {}  # inner const name -> [Clause]
         self.closures = []  # (body_text, ret_decl, ensures_text)
+        self.iters = {}   # loop ordinal -> ghost iterator name of a native for loop
         self.src = None
 
 
@@ -146,6 +147,9 @@ def parse_ctr(text, fname='<ctr>'):
                 cur.attrs.append(rest)
             elif d == 'assumed':
                 cur.assumed = rest or 'no reason given'
+            elif d == 'iter':
+                k_, nm_ = rest.split()
+                cur.iters[int(k_)] = nm_
             elif d == 'closure':
                 mm = re.match(r'"(.*)"\s+\((\w+:\s*[^)]+)\)\s+(.*)', rest)
                 if not mm:
@@ -353,6 +357,14 @@ def _splice_one(c, rel, fns, src, msk, add, registry):
                 bm_ = src.find('/*@body*/', lhe_, lcl_)
                 pos_ = bm_ + len('/*@body*/') if (bm_ >= 0 and src[lhe_ - 9:lhe_].strip().endswith('/*@hdr*/')) else lhe_ + 1
                 add(pos_, '\nproof { assert(false); } /*#VAC %s#loop%d*/\n' % (c.name, k_))
+        for k_, nm_ in c.iters.items():
+            if k_ >= len(loops):
+                raise LostAnchor('%s: loop %d not found' % (c.name, k_))
+            lkw_, lhe_, lcl_ = loops[k_]
+            mm_ = re.match(r'for\s+[^{]*?\bin\s+', msk[lkw_:lhe_])
+            if not mm_:
+                raise LostAnchor('%s: loop %d is not a native for loop' % (c.name, k_))
+            add(lkw_ + mm_.end(), '%s: ' % nm_)
         for k, lp in c.loops.items():
             if k >= len(loops):
                 raise LostAnchor('%s: loop %d not found (fn has %d loops)' % (c.name, k, len(loops)))
